@@ -2,7 +2,7 @@
    of EVERY port-typed field of the configuration structs.  Model only: no proofs here.
 
    pkg/config/v1/validation/common.go : validateWebServerConfig, validateLogConfig
-   pkg/config/v1/validation/server.go : ValidateServerConfig           -> vs_server_ok
+   pkg/config/v1/validation/server.go : ValidateServerConfig           -> vs_server_ok   (repaired code, 8be3cd7)
    pkg/config/v1/validation/client.go : ValidateClientCommonConfig     -> vs_client_ok
         (the VirtualNet feature gate and the `includes` directory checks depend on process state and
          the file system: the harness keeps those settings empty)
@@ -44,7 +44,8 @@ Definition vs_server_ports (c : ServerConfig) : list (string * Z) :=
     ("quicBindPort", ServerConfig_QUICBindPort c);
     ("vhostHTTPPort", ServerConfig_VhostHTTPPort c);
     ("vhostHTTPSPort", ServerConfig_VhostHTTPSPort c);
-    ("tcpmuxHTTPConnectPort", ServerConfig_TCPMuxHTTPConnectPort c) ]%string.
+    ("tcpmuxHTTPConnectPort", ServerConfig_TCPMuxHTTPConnectPort c);
+    ("sshTunnelGateway.bindPort", SSHTunnelGateway_BindPort (ServerConfig_SSHTunnelGateway c)) ]%string.
 
 Definition vs_server_ok (c : ServerConfig) : bool :=
   vs_in vs_auth_methods (AuthServerConfig_Method (ServerConfig_Auth c)) &&
@@ -57,10 +58,12 @@ Definition vs_server_ok (c : ServerConfig) : bool :=
   val_port (ServerConfig_VhostHTTPPort c) &&
   val_port (ServerConfig_VhostHTTPSPort c) &&
   val_port (ServerConfig_TCPMuxHTTPConnectPort c) &&
+  val_port (SSHTunnelGateway_BindPort (ServerConfig_SSHTunnelGateway c)) &&
   forallb (fun p => vs_every vs_plugin_ops (HTTPPluginOptions_Ops p)) (ServerConfig_HTTPPlugins c).
 
 Definition vs_client_ports (c : ClientCommonConfig) : list (string * Z) :=
-  [ ("webServer.port", WebServerConfig_Port (ClientCommonConfig_WebServer c)) ]%string.
+  [ ("webServer.port", WebServerConfig_Port (ClientCommonConfig_WebServer c));
+    ("serverPort", ClientCommonConfig_ServerPort c) ]%string.
 
 Definition vs_client_ok (c : ClientCommonConfig) : bool :=
   let tr := ClientCommonConfig_Transport c in
@@ -68,6 +71,7 @@ Definition vs_client_ok (c : ClientCommonConfig) : bool :=
   vs_every vs_auth_scopes (AuthClientConfig_AdditionalScopes (ClientCommonConfig_Auth c)) &&
   vs_log_ok (ClientCommonConfig_Log c) &&
   vs_web_server_ok (ClientCommonConfig_WebServer c) &&
+  val_port (ClientCommonConfig_ServerPort c) &&
   negb ((0 <? ClientTransportConfig_HeartbeatTimeout tr) && (0 <? ClientTransportConfig_HeartbeatInterval tr) &&
         (ClientTransportConfig_HeartbeatTimeout tr <? ClientTransportConfig_HeartbeatInterval tr)) &&
   vs_in vs_protocols (ClientTransportConfig_Protocol tr).
@@ -104,18 +108,20 @@ Definition vs_checked_ports : list (string * string) :=
   List.app
     [ ("ServerConfig", "BindPort"); ("ServerConfig", "KCPBindPort"); ("ServerConfig", "QUICBindPort");
       ("ServerConfig", "VhostHTTPPort"); ("ServerConfig", "VhostHTTPSPort"); ("ServerConfig", "TCPMuxHTTPConnectPort");
-      ("ServerConfig", "WebServer.Port"); ("ClientCommonConfig", "WebServer.Port") ]%string
+      ("ServerConfig", "WebServer.Port"); ("ClientCommonConfig", "WebServer.Port");
+      ("ServerConfig", "SSHTunnelGateway.BindPort"); ("ClientCommonConfig", "ServerPort");
+      ("TCPProxyConfig", "RemotePort"); ("UDPProxyConfig", "RemotePort") ]%string
     (map (fun s => (s, "ProxyBaseConfig.ProxyBackend.LocalPort"%string)) cm_registered_structs).
 
-(* NOT range-checked by the validation layer at the pinned commit (recorded; see design/C18.md):
-   the proxy's remotePort is checked by the server's port manager (C09); a visitor's bindPort only
-   has to be non-zero (a negative value means "do not listen"); serverPort and the ssh gateway's
-   bindPort are not checked at all. *)
+(* NOT range-checked by the validation layer: a visitor's bindPort only has to be non-zero — a negative
+   value is the documented "do not listen, only accept connections redirected from other visitors".
+   (serverPort, sshTunnelGateway.bindPort and the tcp / udp remotePort were on this list until the repair
+   8be3cd7; remotePort is checked by the CLIENT-side validation of tcp and udp proxies only, the server-side
+   path NewProxyConfigurerFromMsg / ValidateProxyConfigurerForServer is unchanged: there the port manager
+   decides, C09.) *)
 Definition vs_unchecked_ports : list (string * string) :=
-  [ ("ServerConfig", "SSHTunnelGateway.BindPort"); ("ClientCommonConfig", "ServerPort");
-    ("STCPVisitorConfig", "VisitorBaseConfig.BindPort"); ("SUDPVisitorConfig", "VisitorBaseConfig.BindPort");
-    ("XTCPVisitorConfig", "VisitorBaseConfig.BindPort");
-    ("TCPProxyConfig", "RemotePort"); ("UDPProxyConfig", "RemotePort") ]%string.
+  [ ("STCPVisitorConfig", "VisitorBaseConfig.BindPort"); ("SUDPVisitorConfig", "VisitorBaseConfig.BindPort");
+    ("XTCPVisitorConfig", "VisitorBaseConfig.BindPort") ]%string.
 
 Definition vs_pair_eqb (a b : string * string) : bool := String.eqb (fst a) (fst b) && String.eqb (snd a) (snd b).
 
